@@ -4,7 +4,7 @@
 (* temporary files after each of them.  Replayed on the real programs by harness/drivers/c20.py.                  *)
 EXTENDS Output_MC, Json, SequencesExt
 VARIABLE hist
-VarJ(v) == [prog |-> v.prog, on |-> SetToSeq(v.on), route |-> v.route, inout |-> v.inout, dev |-> v.dev]
+VarJ(v) == [prog |-> v.prog, on |-> SetToSeq(v.on), route |-> v.route, inout |-> v.inout, dev |-> v.dev, env |-> v.env]
 XInit == Init /\ hist = << [ev |-> last, run |-> run, var |-> VarJ(var), target |-> target, fs |-> fs,
                             queue |-> queue, loose |-> loose, pc |-> pc] >>
 Entry == [ev |-> last', run |-> run', var |-> VarJ(var'), target |-> target', fs |-> fs', queue |-> queue',
